@@ -54,6 +54,7 @@ ClientInit ==
    calls |-> 0, hb |-> "off", retries |-> 0, trig |-> 0, h |-> NoHandler, ftry |-> 0, ac |-> 0, j1 |-> FALSE,
    nj |-> 0, ns |-> 0,          \* join / sync requests sent in the current Consume call
    cco |-> 0, oco |-> 0,        \* coordinator cached by the client / by the session's offset manager (0 = none: looked up on use)
+   persist |-> "", nref |-> 0,  \* every JoinGroup ("join") / SyncGroup ("sync") of the call is refused with REBALANCE_IN_PROGRESS; refusals so far
    df |-> -1]                   \* partition whose claim could not start in this call (data-plane fault)
 
 ResetEvent(c) ==
@@ -166,7 +167,7 @@ ConsumeCall(c) ==
           /\ script' = AppendSess(c, NoHandler)
      ELSE \E h \in Handlers :
           /\ cl' = [cl EXCEPT ![c].calls = @ + 1, ![c].pc = "join", ![c].retries = cfg.rretry,
-                              ![c].h = h, ![c].trig = 0, ![c].nj = 0, ![c].ns = 0, ![c].df = -1,
+                              ![c].h = h, ![c].trig = 0, ![c].nj = 0, ![c].ns = 0, ![c].df = -1, ![c].persist = "", ![c].nref = 0,
                               ![c].cco = IF x.cco = 0 THEN co.loc ELSE @]     \* client.Coordinator: cached, else looked up
           /\ Emitting(<<[ev |-> "consume_call", c |-> c]>>)
           /\ script' = AppendSess(c, h)
@@ -185,7 +186,7 @@ JoinStale(c) ==
 
 JoinScripted(c) ==
   LET x == cl[c] IN
-  /\ x.pc = "join" /\ fb > 0 /\ ~Stale(x)
+  /\ x.pc = "join" /\ fb > 0 /\ ~Stale(x) /\ x.persist # "join"
   /\ \E k \in ReqKinds :
        /\ co' = IF k = "unknown" THEN Remove(co, x.mid) ELSE co
        /\ cl' = [cl EXCEPT ![c] = [AfterJoinSyncError(x, k) EXCEPT !.nj = 1]]
@@ -205,7 +206,7 @@ StartClass(c) ==
 
 JoinGenuine(c) ==
   LET x == cl[c] IN
-  /\ x.pc = "join" /\ ~Stale(x)
+  /\ x.pc = "join" /\ ~Stale(x) /\ x.persist # "join"
   /\ script' = IF x.j1 \/ (x.mid # "" /\ x.mid \notin co.mem) THEN RecJ(script, c, "ok")
                 ELSE [RecJ(script, c, "ok") EXCEPT ![c].start = StartClass(c)]
   /\ IF x.mid # "" /\ x.mid \notin co.mem
@@ -253,7 +254,7 @@ SyncStale(c) ==
 
 SyncScripted(c) ==
   LET x == cl[c] IN
-  /\ x.pc = "sync" /\ fb > 0 /\ ~Stale(x)
+  /\ x.pc = "sync" /\ fb > 0 /\ ~Stale(x) /\ x.persist # "sync"
   /\ \E k \in ReqKinds :
        /\ co' = IF k = "unknown" THEN Remove(co, x.mid) ELSE co
        /\ cl' = [cl EXCEPT ![c] = [AfterJoinSyncError(x, k) EXCEPT !.ns = 1]]
@@ -265,7 +266,7 @@ SyncScripted(c) ==
 SyncGenuine(c) ==
   LET x == cl[c]
       v == Verdict(co, x.mid, x.sgen, "sync") IN
-  /\ x.pc = "sync" /\ ~Stale(x)
+  /\ x.pc = "sync" /\ ~Stale(x) /\ x.persist # "sync"
   /\ script' = RecS(script, c, "ok")
   /\ IF v # "ok"
      THEN /\ cl' = [cl EXCEPT ![c] = [AfterJoinSyncError(x, v) EXCEPT !.ns = 1]]
@@ -529,6 +530,30 @@ SetupFail(c, kind) ==
   /\ tb' = tb - 1
   /\ UNCHANGED <<cfg, co, fb>>
 
+\* a rebalance that does not settle: every JoinGroup (or every SyncGroup) of this Consume call is answered
+\* REBALANCE_IN_PROGRESS. The code backs off and retries while the budget lasts, then Consume returns the error.
+PersistArm(c, what) ==
+  LET x == cl[c]
+      kind == IF what = "sync" THEN "sync_rebalance_forever" ELSE "join_rebalance_forever" IN
+  /\ kind \in TrigKinds /\ CanTrig(c) /\ x.pc = "join" /\ x.nj = 0 /\ ~Stale(x)
+  /\ cl' = [cl EXCEPT ![c].persist = what, ![c].trig = 1]
+  /\ script' = RecTrig(script, c, kind, "join")
+  /\ tb' = tb - 1
+  /\ UNCHANGED <<cfg, co, fb, obs>>
+
+PersistRefuse(c) ==
+  LET x == cl[c]
+      isJoin == x.persist = "join"
+      n == x.nref + 1
+      after == IF Bug = "sync_rebalance_rejoins_at_once" /\ ~isJoin THEN [x EXCEPT !.pc = "join"]
+               ELSE AfterJoinSyncError(x, "rebalance") IN
+  /\ x.pc = (IF isJoin THEN "join" ELSE "sync") /\ x.persist # "" /\ x.persist = (IF isJoin THEN "join" ELSE "sync")
+  /\ cl' = [cl EXCEPT ![c] = [after EXCEPT !.nref = n, !.nj = 1, !.ns = IF isJoin THEN @ ELSE 1]]
+  /\ Emitting(IF isJoin
+              THEN <<JoinReqEv(c), [ev |-> "join_resp", c |-> c, err |-> "rebalance", mid |-> "", gen |-> -1, n |-> n, max |-> cfg.rretry + 1]>>
+              ELSE <<SyncReqEv(c), [ev |-> "sync_resp", c |-> c, err |-> "rebalance", claims |-> <<>>, n |-> n, max |-> cfg.rretry + 1]>>)
+  /\ UNCHANGED <<cfg, co, fb, tb, script>>
+
 \* the coordinator cannot be found (from the start of the call, or - "late" - once the scripted NOT_COORDINATOR answer to the
 \* first JoinGroup sent the client looking): retryNewSession keeps looking it up, backing off in a select on the closed
 \* channel; the application closes the group meanwhile: Consume returns ErrClosedConsumerGroup and Close completes
@@ -594,7 +619,7 @@ AllDone == \A c \in Clients : cl[c].pc = "done"
 
 Next ==
   \/ \E c \in Clients :
-       \/ ConsumeCall(c) \/ NoCoordClose(c, TRUE) \/ NoCoordClose(c, FALSE) \/ (\E k \in SetupFailKinds : SetupFail(c, k)) \/ JoinStale(c) \/ SyncStale(c) \/ TrigMove(c, TRUE) \/ TrigMove(c, FALSE) \/ JoinScripted(c) \/ JoinGenuine(c) \/ SyncScripted(c) \/ SyncGenuine(c) \/ SyncAbort(c)
+       \/ ConsumeCall(c) \/ PersistArm(c, "sync") \/ PersistArm(c, "join") \/ PersistRefuse(c) \/ NoCoordClose(c, TRUE) \/ NoCoordClose(c, FALSE) \/ (\E k \in SetupFailKinds : SetupFail(c, k)) \/ JoinStale(c) \/ SyncStale(c) \/ TrigMove(c, TRUE) \/ TrigMove(c, FALSE) \/ JoinScripted(c) \/ JoinGenuine(c) \/ SyncScripted(c) \/ SyncGenuine(c) \/ SyncAbort(c)
        \/ SetupEnter(c) \/ SetupExit(c) \/ Watcher(c) \/ Release(c) \/ CleanupExit(c)
        \/ AutoCommit(c) \/ FinalCommit(c) \/ HbStop(c) \/ RetErr(c) \/ HbGenuine(c)
        \/ TrigCancel(c) \/ TrigClose(c) \/ TrigHb(c) \/ CloseNormal(c) \/ CloseLeave(c)
